@@ -75,23 +75,36 @@ def run_group(name, uc, tier, outdir):
     # parse: with -j output is per harness:  "Thread N: Checking harness X..." then result lines
     res = {}
     cur = None
+    by_thread = {}
     solver_s = 0.0
     for ln in out.split('\n'):
-        mm = re.search(r'Checking harness ([\w:]+)', ln)
+        mm = re.search(r'(?:Thread (\d+): )?Checking harness ([\w:]+)', ln)
         if mm:
-            cur = mm.group(1).split('::')[-1]
+            cur = mm.group(2).split('::')[-1]
+            if mm.group(1) is not None:
+                by_thread[mm.group(1)] = cur
             res.setdefault(cur, {'status': 'UNKNOWN', 'failed_checks': [], 'time_s': None})
             continue
+        mm = re.match(r'\s*Thread (\d+):\s*$', ln)
+        if mm:
+            cur = by_thread.get(mm.group(1))
+            continue
+        if cur is None:
+            continue
         mm = re.search(r'Verification Time: ([\d.]+)s', ln)
-        if mm and cur:
+        if mm:
             res[cur]['time_s'] = float(mm.group(1))
             solver_s += float(mm.group(1))
         mm = re.search(r'VERIFICATION:- (\w+)', ln)
-        if mm and cur:
+        if mm:
             res[cur]['status'] = 'SUCCESS' if mm.group(1) == 'SUCCESSFUL' else 'FAILED'
         mm = re.search(r'Failed Checks: (.*)', ln)
-        if mm and cur:
+        if mm:
             res[cur]['failed_checks'].append(mm.group(1).strip())
+        mm = re.search(r'\*\* (\d+) of (\d+) failed', ln)
+        if mm:
+            res[cur]['checks'] = int(mm.group(2))
+            res[cur]['checks_failed'] = int(mm.group(1))
     harnesses = []
     for h in hs:
         r = res.get(h['harness'])
